@@ -307,6 +307,8 @@ def render(kinds, rnd):
     p = Printer(rnd, brk)
     docs = tree(kinds)
     out = ''
+    if rnd.random() < 0.04:
+        out += '\ufeff'                                  # a byte order mark in front of the stream
     if rnd.random() < 0.05:
         out += '# leading comment' + p.nl()
     for i, d in enumerate(docs):
